@@ -120,9 +120,10 @@ Print Assumptions C15_untruncated_is_full_rendering.
 
 (* ---- "Expanding an encoded name restores every abbreviated import path,
    giving exactly the uncompressed rendering of the same frames": for every
-   counter name without newline whose own "package path" is not a lone ditto
-   mark, and all frames whose function has a non-empty package path (not a
-   lone ditto mark) and no newline. *)
+   counter name none of whose lines has a lone ditto mark before its last dot
+   (dots and even newlines in the counter name are fine), and all frames whose
+   function name has no newline and whose package path is not a lone ditto
+   mark.  The package path MAY be empty (since fix a2e6094 in /repo). *)
 Theorem C15_decode_encode :
   forall (prefix : bytes) (fs : list frame),
   prefix_ok prefix = true ->
@@ -145,23 +146,51 @@ Theorem C15_decode_encode_truncated :
 Proof. exact decode_encode_truncated. Qed.
 Print Assumptions C15_decode_encode_truncated.
 
-(* KNOWN FINDING (class ditto-empty-path): outside the hypothesis "package path
-   non-empty" the round trip fails.  The frame the runtime returns when no pc
-   symbolises (empty Function) is encoded with a ditto mark standing for the
-   empty path; the decoder expands it to nothing and drops the dot.  Writing Q
-   for the ditto mark (byte 34) and / for a newline:
-     EncodeStack([]uintptr{1,2}, `p`) = p/Q.:=0,+0x0   decodes to   p/:=0,+0x0
-   but the uncompressed rendering is   p/.:=0,+0x0 . *)
-Theorem C15_decode_encode_refuted :
+(* FIXED finding (was class ditto-empty-path; /repo commit a2e6094): frames with
+   an empty package path - what the runtime returns when no pc symbolises - are
+   no longer abbreviated and round-trip, also when repeated. *)
+Theorem C15_decode_encode_empty_path :
   let prefix := [112] in
-  let fs := [zero_frame] in
-  is_truncated prefix fs = false /\ prefix_ok prefix = true /\
-  encode_frames prefix fs = prefix ++ [10] ++ [34; 46; 58; 61; 48; 44; 43; 48; 120; 48] /\
-  decode_stack (encode_frames prefix fs) = prefix ++ [10] ++ [58; 61; 48; 44; 43; 48; 120; 48] /\
-  render_plain prefix fs = prefix ++ [10] ++ [46; 58; 61; 48; 44; 43; 48; 120; 48] /\
-  decode_stack (encode_frames prefix fs) <> render_plain prefix fs.
-Proof. exact decode_encode_refuted. Qed.
-Print Assumptions C15_decode_encode_refuted.
+  let fs := [zero_frame; zero_frame] in
+  Forall (fun f => fn_roundtrips (fr_func f) = true) fs /\ prefix_ok prefix = true /\
+  is_truncated prefix fs = false /\
+  encode_frames prefix fs = prefix ++ [10] ++ [46; 58; 61; 48; 44; 43; 48; 120; 48]
+                                   ++ [10] ++ [46; 58; 61; 48; 44; 43; 48; 120; 48] /\
+  decode_stack (encode_frames prefix fs) = render_plain prefix fs.
+Proof. exact decode_encode_empty_path. Qed.
+Print Assumptions C15_decode_encode_empty_path.
+
+(* Each remaining hypothesis is necessary.  (a) a function whose package path is
+   a lone ditto mark is read back as a ditto; (b) with a newline inside a
+   function name the next frame's ditto expands to the part after the newline
+   only; (c) a line of the counter name that looks like a ditto is expanded.
+   Real Go symbols and counter names never have these shapes. *)
+Theorem C15_decode_encode_needs_no_ditto_path :
+  let fs := [mkFrame [97; 46; 102] true 1 2; mkFrame [34; 46; 103] true 1 2] in
+  prefix_ok [112] = true /\ is_truncated [112] fs = false /\
+  decode_stack (encode_frames [112] fs) <> render_plain [112] fs.
+Proof. exact decode_encode_needs_no_ditto_path. Qed.
+Print Assumptions C15_decode_encode_needs_no_ditto_path.
+Theorem C15_decode_encode_needs_no_newline :
+  let fs := [mkFrame [97; 10; 98; 46; 102] true 1 2; mkFrame [97; 10; 98; 46; 103] true 1 2] in
+  prefix_ok [112] = true /\ is_truncated [112] fs = false /\
+  decode_stack (encode_frames [112] fs) <> render_plain [112] fs.
+Proof. exact decode_encode_needs_no_newline. Qed.
+Print Assumptions C15_decode_encode_needs_no_newline.
+Theorem C15_decode_encode_needs_prefix_ok :
+  let prefix := [34; 46; 120] in
+  prefix_ok prefix = false /\ is_truncated prefix [] = false /\
+  decode_stack (encode_frames prefix []) <> render_plain prefix [].
+Proof. exact decode_encode_needs_prefix_ok. Qed.
+Print Assumptions C15_decode_encode_needs_prefix_ok.
+(* a counter name with dots and a newline, an empty-path frame first: fine *)
+Theorem C15_decode_encode_dotted_prefix :
+  let prefix := [97; 46; 98; 10; 99; 46; 100] in
+  let fs := [zero_frame; mkFrame [109; 46; 102] true 1 2; mkFrame [109; 46; 103] true 1 2] in
+  prefix_ok prefix = true /\ Forall (fun f => fn_roundtrips (fr_func f) = true) fs /\
+  decode_stack (encode_frames prefix fs) = render_plain prefix fs.
+Proof. exact decode_encode_dotted_prefix. Qed.
+Print Assumptions C15_decode_encode_dotted_prefix.
 
 (* ---- "is the identity on ordinary counter names" *)
 Theorem C15_decode_identity_on_plain :
